@@ -346,6 +346,51 @@ theorem for_in_range_step (f : Nat) (ctx : Ctx) (env : Env) (x : Name) (cur : In
   simp only [evalForRng, bind_eq, M.bind, getInt_ok lt s t ht, rngElem]
   split <;> rfl
 
+/-- **`[ x | x in [a .. b] ]` is the array of the range's positions.**  The generator loop of a comprehension over a
+range (counter at `from` = `a`, the `to` cell `lt` holding `b`, body `x`, element type int, array object `o` under
+construction with elements `elems`), given enough fuel and no `int` overflow of the counter, ends normally; it
+allocates exactly `rangeLen a b` fresh int cells holding `rangePos a b 0, …, rangePos a b (rangeLen a b − 1)` — C12's
+denotation of the range, ascending, descending or one-element — appends them in this order to the array object, and
+changes nothing else (no output). -/
+theorem comprehension_over_range_denotation (ctx : Ctx) (env : Env) (x : Name) (lt o : Loc) (a : Int) (b : Int32) (f : Nat)
+    (s : St) (d : List Nat) (elems : Array Loc)
+    (ht : s.mem[lt]? = some (.int b)) (ho : s.mem[o]? = some (.arrObj d elems)) (hne : lt ≠ o)
+    (hov : ∀ k : Nat, k < Idx.rangeLen a b.toInt →
+      inInt32 (stepRange (decide (a < b.toInt)) (Idx.rangePos a b.toInt k)) = true)
+    (hf : Idx.rangeLen a b.toInt + 3 ≤ f) :
+    ∃ s', evalGenRng f ctx env x none a (decide (a < b.toInt)) lt [] (.var x) .int o s = .ok () s' ∧
+      s'.mem.size = s.mem.size + Idx.rangeLen a b.toInt ∧
+      s'.mem[o]? = some (.arrObj [elems.size + Idx.rangeLen a b.toInt]
+        (elems ++ ((List.range (Idx.rangeLen a b.toInt)).map (fun k => s.mem.size + k)).toArray)) ∧
+      (∀ k, k < Idx.rangeLen a b.toInt →
+        s'.mem[s.mem.size + k]? = some (.int (Int32.ofInt (Idx.rangePos a b.toInt k)))) ∧
+      (∀ l, l < s.mem.size → l ≠ o → s'.mem[l]? = s.mem[l]?) ∧ s'.out = s.out := by
+  have hlen : ((List.range (Idx.rangeLen a b.toInt)).map (fun (k : Nat) => Idx.rangePos a b.toInt k)).length
+      = Idx.rangeLen a b.toInt := by simp
+  have hpos := loopVals_positions a b.toInt (Idx.rangeLen a b.toInt + 1) (by omega)
+  have hne0 : (List.range (Idx.rangeLen a b.toInt)).map (fun (k : Nat) => Idx.rangePos a b.toInt k) ≠ [] := by
+    intro h
+    have := congrArg List.length h
+    simp [Idx.rangeLen] at this
+  have hrun := genRng_var_run ctx env x (decide (a < b.toInt)) lt o b hne
+    ((List.range (Idx.rangeLen a b.toInt)).map (fun (k : Nat) => Idx.rangePos a b.toInt k)) f a s d elems
+    (by rw [hlen]; exact hpos.symm)
+    (by
+      intro v hv
+      simp only [List.mem_map, List.mem_range] at hv
+      obtain ⟨k, hk, rfl⟩ := hv
+      exact hov k hk)
+    ht ho (by rw [hlen]; exact hf)
+  obtain ⟨g1, g2, g3, g4, g5⟩ := genFold_spec o
+    ((List.range (Idx.rangeLen a b.toInt)).map (fun (k : Nat) => Idx.rangePos a b.toInt k)) s d elems ho
+  refine ⟨_, hrun, ?_, ?_, ?_, g4, g5⟩
+  · rw [g1, hlen]
+  · rw [g2, hlen, if_neg hne0]
+  · intro k hk
+    have := g3 k (by rw [hlen]; exact hk)
+    rw [this]
+    simp
+
 /-- **The bound names of a range parameter are the range's own cells.**  `func f(r[lo .. hi] : range)` called with a range
 whose object holds the cells `lf`, `lt` binds `lo ↦ lf`, `hi ↦ lt` (no copy, no allocation): inside `f` the names read —
 and an assignment through a variable used as the bound changes — the caller's cells. -/
@@ -551,6 +596,15 @@ example : (eval { recs := [], enums := [], funcs := [
 example : (eval { recs := [], enums := [], funcs := [
     .mk 0 "g" [{ name := "s", ty := .slc, dims := ["f", "t"] }] .int (.var "t") [],
     .mk 1 "main" [] .int (.call (.var "g") [.slice arr4 [i 3, i 1]]) []] } [] 30).int? = some 2 := by decide +kernel
+/-- the hypotheses of `comprehension_over_range_denotation` on a concrete store: cell 0 holds `to` = 1, cell 1 is the empty
+array object; from = 3: three new cells 2, 3, 4 hold 3, 2, 1 and the array object lists them -/
+private def stC : St := { mem := #[.int 1, .arrObj [0] #[]] }
+example : ∃ s', evalGenRng 6 {} [] "x" none 3 (decide ((3 : Int) < (1 : Int32).toInt)) 0 [] (.var "x") .int 1 stC = .ok () s' ∧
+    s'.mem.size = 5 ∧ s'.mem[1]? = some (.arrObj [3] #[2, 3, 4]) ∧
+    s'.mem[2]? = some (.int 3) ∧ s'.mem[3]? = some (.int 2) ∧ s'.mem[4]? = some (.int 1) := by
+  obtain ⟨s', h1, h2, h3, h4, _, _⟩ := comprehension_over_range_denotation {} [] "x" 0 1 3 1 6 stC [0] #[] rfl rfl (by decide)
+    (by decide) (by decide)
+  exact ⟨s', h1, h2, h3, h4 0 (by decide), h4 1 (by decide), h4 2 (by decide)⟩
 
 end Examples
 
